@@ -16,8 +16,26 @@
 (* The same environment is implemented by /verif/harness (Rust), which     *)
 (* drives the real closures.                                               *)
 (*                                                                         *)
-(* The scenario (graph of operators, bounds, peer modes) is the constant   *)
-(* CFG, generated from the same JSON that the harness reads.               *)
+(* The scenarios (graph of operators, bounds, peer modes) are the constant  *)
+(* CFGS, generated from the same JSON that the harness reads; the variable  *)
+(* ci picks one of them in the initial state.                              *)
+(*                                                                         *)
+(* Scenario flags: maxData / maxTop / maxPull (budgets), allowFail (puppets *)
+(* may fail), sinkErr (sinks may dispose with Error), c14 (one Pull per     *)
+(* message received), burst (emissions inside the greeting), reentrant     *)
+(* (the sink makes an upstream emit/end/fail from inside its handler),      *)
+(* maxReact (actions per handler), cross (a sink makes the other sink act   *)
+(* from inside its handler, C13), passive + thr (member threads, C18/C19),  *)
+(* late per puppet (greets after the subscribing call).                     *)
+(*                                                                         *)
+(* Named deviations (the model follows the code, not the ideal): F1 combine *)
+(* counts a member Error as an end; F2 share fans out over a snapshot; F3   *)
+(* combine broadcasts to ended members; F7 merge's Pull broadcast does not  *)
+(* re-check `ended`; F8 share greets a sink before a late upstream greeted. *)
+(* Repaired in the code and therefore in the model: F4 (merge disposes a    *)
+(* late greeter), F5 (combine stores before counting), F6 (take claims its  *)
+(* slot atomically).  file:line references are to the pinned commit; lines  *)
+(* of merge.rs / take.rs / combine.rs moved by up to 12 with those commits. *)
 (***************************************************************************)
 EXTENDS Integers, Sequences, FiniteSets, TLC
 
